@@ -224,7 +224,7 @@ Proof.
     + (* unsupported stream type: refused when routing, at the latest *)
       unfold options_from_frame, first_options, bind; cbn.
       destruct (negb (type_compat (o_phys o) (o_logical o))); [eauto|].
-      destruct (negb (preset_ok (o_maxn o))); [eauto|]. cbn [po_phys].
+      destruct (negb (preset_ok (o_maxn o) (o_maxp o) (o_maxd o))); [eauto|]. cbn [po_phys].
       assert (Hr : exists e, route (o_phys o) = Err e).
       { apply reject_unsupported_type. apply negb_true_iff, andb_false_iff in Ep.
         destruct Ep as [Ep|Ep]; apply N.leb_gt in Ep; lia. }
@@ -234,7 +234,7 @@ Proof.
         inversion Es; subst c0. apply N.ltb_lt in Ev.
         unfold options_from_frame, first_options, bind; cbn.
         destruct (negb (type_compat (o_phys o) (o_logical o))); [eauto|].
-        destruct (negb (preset_ok (o_maxn o))); [eauto|]. cbn [po_phys].
+        destruct (negb (preset_ok (o_maxn o) (o_maxp o) (o_maxd o))); [eauto|]. cbn [po_phys].
         destruct (route (o_phys o)) as [ak|]; [|eauto].
         match goal with |- context [decoder_new ?po] => destruct (decoder_new po) as [st|] eqn:Ed; [|eauto] end.
         unfold rows_obs. cbn [decode_rows decode_row].
